@@ -1,4 +1,5 @@
 import UvModel.LoopRun
+import UvModel.Lemmas.LoopRing
 import UvModel.Lemmas.LoopCore
 /-!
   Effect of every model function on the accounting core `(s.c, s.nextId)`:
@@ -121,8 +122,20 @@ theorem Steps.sig_left {a a' b : State} (h : sig a' = sig a) (h2 : Steps a' b) :
 @[simp] theorem sig_completeWorks (s : State) (k : Nat) : sig (completeWorks s k) = sig s := by
   unfold completeWorks; split; · rfl
   simp; rfl
-@[simp] theorem sig_workSubmit (s : State) : sig (workSubmit s) = sig s := by
-  unfold workSubmit; simp only; split <;> rfl
+@[simp] theorem sig_workSubmit (s : State) (api : Api) : sig (workSubmit s api) = sig s := by
+  unfold workSubmit; simp only; split
+  · split
+    · rfl
+    · rw [sig_asyncSend]; rfl
+  · rfl
+@[simp] theorem sig_ringInit (s : State) : sig (ringInit s) = sig s := by
+  unfold ringInit; split <;> rfl
+@[simp] theorem sig_submit (s : State) (api : Api) : sig (submit s api) = sig s := by
+  unfold submit; simp only; split
+  · split
+    · unfold ringSubmit; simp only; exact sig_ringInit s
+    · rw [sig_workSubmit, sig_ringInit]
+  · rw [sig_workSubmit]
 @[simp] theorem sig_workCancel (s : State) (r : Nat) : sig (workCancel s r).1 = sig s := by
   unfold workCancel; split
   · simp; rfl
@@ -623,7 +636,12 @@ theorem applyOp_inv (s : State) (o : Op) (hi : SInv s) : SInv (applyOp s o).1 :=
           exact (udpSend_steps s id (pre_of_getHF hg hc')).inv hi
         · exact illegal_inv hi
       · exact illegal_inv hi
-    | work => exact SInv.of_sig (s := s) (by simp [ok]) hi
+    | work api =>
+      simp only
+      split
+      · exact illegal_inv hi
+      · exact SInv.of_sig (s := s) (by simp [ok]) hi
+    | useIoUring => exact SInv.of_sig (s := s) rfl hi
     | workNull => exact hi
     | reject api => simp only; split <;> first | exact hi | exact illegal_inv hi
     | connectBad id =>
